@@ -204,14 +204,16 @@ impl CartState for MBC1CartState {
   }
 
   fn get_rom_bank(&self) -> usize {
+    // Bank 0 cannot be mapped at 0x4000-0x7fff: the controller translates a
+    // bank register of 0 to 1 in both banking modes.
+    let mut bank = self.rom_bank;
+    if bank == 0 {
+      bank = 1;
+    }
     if self.select_ram {
-      self.rom_bank
+      bank
     } else {
       let bank_high = self.ram_bank << 5;
-      let mut bank = self.rom_bank;
-      if bank == 0 {
-        bank = 1;
-      }
       bank |= bank_high;
       bank
     }
